@@ -79,7 +79,7 @@ func TestCheck(t *testing.T) {
 	defer r.Finish()
 	r.Rule("case = cluster of n in 3..6 real bcast.Components (1 or 2 ceremony sessions over the same keys) on fakenet, one member is the harness-played faulty member; " +
 		"honest members run real Broadcast calls concurrently (about 40% of 8 ids each) while the faulty member executes a PRNG playbook of /sig and /msg injections " +
-		"(equivocation, withholding, signature-list permutation/truncation/duplication/substitution from other ids, payloads, members and sessions, unknown ids, re-requests, relaying foreign signed messages, alternative encodings); " +
+		"(sequential and concurrent equivocation, concurrent duplicates, withholding, signature-list permutation/truncation/duplication/substitution from other ids, payloads, members and sessions, unknown ids, re-requests, relaying foreign signed messages, alternative encodings); " +
 		"non-trivial = at least one honest broadcast reached every honest member AND the faulty member had at least one /msg accepted and one rejected; distinct = hash of the full adversary trace")
 	r.Assume("app/k1util.Sign/Verify65 and decred secp256k1 are correct (the monitor verifies every observed signature with them)")
 	r.Assume("the monitor re-implements the session-bound hash of dkg/bcast/impl.go newHashAny (sha256 over length-prefixed session, id, type url, value); a variant that additionally binds the sender peer id is accepted as conforming if a probe shows the members sign that")
@@ -104,6 +104,8 @@ func TestCheck(t *testing.T) {
 	r.Require("adv_relay_foreign_attempts", min(600, 12000))
 	r.Require("adv_cross_session_attempts", min(100, 2000))
 	r.Require("deliveries_checked", min(5000, 100000))
+	r.Require("adv_concurrent_sigreq_races", min(800, 16000))
+	r.Require("adv_concurrent_duplicate_races", min(150, 3000))
 
 	lc := &logCounter{counts: map[string]int64{}}
 	log.InitJSONForT(t, lc)
@@ -287,6 +289,12 @@ type sigKey struct {
 	h                 hash32
 }
 
+// spKey identifies "what did member signer sign for requester under id in this session".
+type spKey struct {
+	w, signer, requester int
+	id                   string
+}
+
 type signedKey struct {
 	signer int
 	h      hash32
@@ -314,23 +322,24 @@ type honestBcast struct {
 
 // monitor is the per-case observation state. Everything is guarded by mu.
 type monitor struct {
-	mu       sync.Mutex
-	n, adv   int
-	members  []member
-	idxOf    map[peer.ID]int
-	worlds   []*world
-	payloads map[string]*payload
-	owner    map[string]*honestBcast // payload key -> honest broadcast that carries it
-	sigFor   map[sigKey]struct{}
-	signed   map[signedKey]struct{}
-	seenFull map[hash32]struct{}
-	dels     []delivery
-	advDel   map[[2]int]int
-	curLabel string
-	curHash  hash32
-	spec     atomic.Uint32 // packed hashShape: plainSpec or senderSpec
-	counts   map[string]int64
-	verifies int64
+	mu        sync.Mutex
+	n, adv    int
+	members   []member
+	idxOf     map[peer.ID]int
+	worlds    []*world
+	payloads  map[string]*payload
+	owner     map[string]*honestBcast // payload key -> honest broadcast that carries it
+	sigFor    map[sigKey]struct{}
+	signed    map[signedKey]struct{}
+	seenFull  map[hash32]struct{}
+	dels      []delivery
+	advDel    map[[2]int]int
+	curLabel  string
+	curHash   hash32
+	signedPay map[spKey]map[string]string // (session, signer, requester, id) -> payload key -> tag
+	spec      atomic.Uint32               // packed hashShape: plainSpec or senderSpec
+	counts    map[string]int64
+	verifies  int64
 }
 
 func (m *monitor) count(k string, d int64) {
@@ -344,6 +353,22 @@ func (m *monitor) recordSig(signer, requester int, h hash32) {
 	m.mu.Lock()
 	m.sigFor[sigKey{signer, requester, h}] = struct{}{}
 	m.signed[signedKey{signer, h}] = struct{}{}
+	m.mu.Unlock()
+}
+
+// recordSignedPayload notes which application payload `signer` signed for (requester, id); called
+// only for signatures that verified over the conforming hash.
+func (m *monitor) recordSignedPayload(w *world, signer, requester int, id string, a *anypb.Any, tag string) {
+	key := "undecodable:" + tag
+	if inner, err := a.UnmarshalNew(); err == nil {
+		key = msgKey(inner)
+	}
+	m.mu.Lock()
+	k := spKey{w.idx, signer, requester, id}
+	if m.signedPay[k] == nil {
+		m.signedPay[k] = map[string]string{}
+	}
+	m.signedPay[k][key] = tag
 	m.mu.Unlock()
 }
 
@@ -386,6 +411,7 @@ func (m *monitor) observeFull(w *world, from int, msg *pb.BCastMessage) {
 		}
 		if m.verify(i, h, s) {
 			m.recordSig(i, from, h)
+			m.recordSignedPayload(w, i, from, msg.GetId(), msg.GetMessage(), "")
 		} else {
 			bad++
 		}
@@ -453,7 +479,7 @@ func runCase(c *kit.Case, pool []member) {
 	mon := &monitor{
 		n: n, adv: cfg.Adv, idxOf: map[peer.ID]int{}, payloads: map[string]*payload{}, owner: map[string]*honestBcast{},
 		sigFor: map[sigKey]struct{}{}, signed: map[signedKey]struct{}{}, seenFull: map[hash32]struct{}{},
-		advDel: map[[2]int]int{}, counts: map[string]int64{},
+		advDel: map[[2]int]int{}, counts: map[string]int64{}, signedPay: map[spKey]map[string]string{},
 	}
 	mon.spec.Store(plainSpec.pack())
 	for _, pi := range rng.Perm(len(pool))[:n] {
@@ -639,7 +665,7 @@ func runCase(c *kit.Case, pool []member) {
 		r.Inconclusive("case %d: honest broadcasts did not finish within the watchdog", c.Idx)
 		return
 	}
-	if a.noHandler {
+	if a.noHandler.Load() {
 		r.Inconclusive("case %d: no handler for %s or %s (protocol id changed?)", c.Idx, protoSig, protoMsg)
 		return
 	}
@@ -750,6 +776,45 @@ func evaluate(c *kit.Case, cfg caseCfg, mon *monitor, a *adversary, plan []*hone
 			fmt.Sprintf("n=%d: member %d delivered (sender=%d,id=%s,payload=%s) via %s although members %v never signed H(session,id,payload)",
 				n, d.Receiver, d.Sender, d.ID, d.Payload, d.Label, missing),
 			witness(map[string]any{"delivery": d, "members_that_never_signed": missing}))
+	}
+
+	// Oracle 1b: an honest member signs at most one payload per (session, requesting sender, id).
+	// Once it signed two, which members deliver which payload is only the sender's choice.
+	var spKeys []spKey
+	for k, pays := range mon.signedPay {
+		if k.signer != mon.adv && len(pays) > 1 {
+			spKeys = append(spKeys, k)
+		}
+	}
+	sort.Slice(spKeys, func(i, j int) bool {
+		x, y := spKeys[i], spKeys[j]
+		if x.w != y.w {
+			return x.w < y.w
+		}
+		if x.id != y.id {
+			return x.id < y.id
+		}
+		if x.requester != y.requester {
+			return x.requester < y.requester
+		}
+
+		return x.signer < y.signer
+	})
+	for _, k := range spKeys {
+		var tags []string
+		for key, tag := range mon.signedPay[k] {
+			if tag == "" {
+				if p := mon.payloads[key]; p != nil {
+					tag = p.Tag
+				}
+			}
+			tags = append(tags, tag)
+		}
+		sort.Strings(tags)
+		mon.counts["member_signed_two_payloads_for_one_sender_and_id"]++
+		c.Violation("bcast/member-signed-two-payloads-for-one-sender-and-id",
+			fmt.Sprintf("n=%d: member %d signed %d different payloads %v for (sender=%d,id=%s) in session %d", n, k.signer, len(tags), tags, k.requester, k.id, k.w),
+			witness(map[string]any{"member": k.signer, "sender": k.requester, "id": k.id, "session": k.w, "payloads_signed": tags}))
 	}
 
 	// Oracle 2: one payload per (session, sender, id) across all members.
